@@ -239,8 +239,8 @@ def check_common(p, proj, fails, key, want):
         if "C04" in want and p["alap"]:
             for (j, gap) in t["deps"]:
                 ps, pe, psch = dts[tid(p, j)]
-                if psch and s < pe:
-                    fails.append({"clause": "C04:dependency-alap", "key": key, "detail": f"{fid} starts {s} < {tid(p, j)} end {pe}"})
+                if psch and s < pe + dt.timedelta(hours=gap):
+                    fails.append({"clause": "C04:dependency-alap", "key": key, "detail": f"{fid} starts {s} < {tid(p, j)} end {pe} + {gap}h"})
         if "C11" in want:
             lo, hi = proj.attributes["start"], proj.attributes["end"]
             if not (lo <= s <= e <= hi + dt.timedelta(seconds=D)):
@@ -460,9 +460,12 @@ def main():
                 gd = START + dt.timedelta(days=rng.choice([0, 1, 3]))
                 onstart = rng.random() < 0.3
                 opt = " { onstart }" if onstart else rng.choice(["", "", " { gapduration 2h }"])
-                text = ('project prj "P" 2025-01-06 +3w { timezone "UTC" }\nresource r "r" {}\nresource q "q" {}\n'
+                alap_ = rng.random() < 0.3
+                if alap_:
+                    onstart, opt = False, rng.choice(["", " { gapduration 2h }"])
+                text = ('project prj "P" 2025-01-06 +3w { timezone "UTC"' + (" scheduling alap" if alap_ else "") + ' }\nresource r "r" {}\nresource q "q" {}\n'
                         f'task a "a" {{ effort {e[0]} allocate r }}\n'
-                        f'task g "g" {{ start {gd.strftime("%Y-%m-%d")}\n  task x "x" {{ effort {e[1]} allocate q depends a{opt} }}\n'
+                        f'task g "g" {{ ' + ("" if alap_ else f'start {gd.strftime("%Y-%m-%d")}') + f'\n  task x "x" {{ effort {e[1]} allocate q depends a{opt} }}\n'
                         f'  task y "y" {{ effort {e[2]} allocate q }}\n}}\n'
                         f'task z "z" {{ effort {e[3]} allocate r depends g }}\n')
                 key = f"C04/dated/{SEED}/{k}"
@@ -474,7 +477,7 @@ def main():
                     bound = d_["a"][0] if onstart else d_["a"][1] + dt.timedelta(hours=2 if "gapduration" in opt else 0)
                     if d_["g.x"][0] < bound:
                         fails.append({"clause": "C04:dated-container-child", "key": key, "input": text, "detail": f"g.x starts {d_['g.x'][0]} before its bound {bound}"})
-                    if d_["g.x"][0] < gd or d_["g.y"][0] < gd:
+                    if not alap_ and (d_["g.x"][0] < gd or d_["g.y"][0] < gd):
                         fails.append({"clause": "C04:container-start-bound", "key": key, "input": text, "detail": f"children start {d_['g.x'][0]}, {d_['g.y'][0]} before the container's start {gd}"})
                     if d_["z"][0] < d_["g"][1]:
                         fails.append({"clause": "C04:depends-on-container", "key": key, "input": text, "detail": f"z starts {d_['z'][0]} before g ends {d_['g'][1]}"})
